@@ -126,7 +126,10 @@ for _pid in ("C03", "C20"):
 for _pid in ("C01", "C04", "C09", "C10", "C11", "C13"):
     PROPS[_pid]["theorem_modules"] = PROPS[_pid]["theorem_modules"] + ["DecProofs.Properties.C13PackHelpers"]
 
-PROPS["C10"]["theorem_modules"] = PROPS["C10"]["theorem_modules"] + ["DecProofs.Properties.C10GenRem"]
+PROPS["C10"]["theorem_modules"] = PROPS["C10"]["theorem_modules"] + ["DecProofs.Properties.C10GenRem", "DecProofs.Properties.C10GenFmodRem"]
+
+for _pid in ("C01", "C02"):
+    PROPS[_pid]["theorem_modules"] = PROPS[_pid]["theorem_modules"] + ["DecProofs.Properties.C01GenAdd"]
 
 # secondary build configuration of C02 (thorough tier): the tininess-after-rounding cargo feature
 PROPS["C02"]["feature_configs"] = [{"feature": "tiny_after", "judge_tiny_after": True}]
